@@ -28,6 +28,12 @@ func RunC13(tier string) int {
 		pf := spec.DefaultProfile()
 		pf.NoCache = true
 		pf.MinTargets, pf.MaxTargets = 4, 9
+		if r.Chance(1, 2) {
+			// package paths that differ only in their separators (a/b next to a_b), with the same
+			// target names in both: whatever is keyed on a label must keep them apart
+			pf.ExtraPkgs = []string{"a_b", "a_b", "lib_x", "a_b_c", "a-b"}
+			pf.MaxPackages = 5
+		}
 		s := spec.Gen(r, pf)
 		// no-cache targets whose only output is a bin output, with cacheable dependants: the
 		// output hash of a forced target has to cover the bin output as well
